@@ -22,11 +22,24 @@ PROPS = {
     'C20': {
         'run_vo': 'NoResp/Run.vo', 'props_vo': 'Properties/C20.vo', 'level': 'proof',
         'classes': {1: 'suppressed-class-accepted', 2: 'unsuppressed-class-refused', 3: 'writer-differs-from-rfc'},
+        'runs': [{'hx': 'C20', 'classes': {1: 'suppressed-class-accepted', 2: 'unsuppressed-class-refused', 3: 'writer-differs-from-rfc'}},
+                 {'hx': 'C05', 'classes': {11: 'suppressed-response-on-the-wire', 12: 'unsuppressed-response-dropped'}}],
+        'extra_run_vos': ['Dedup/Run.vo'],
         'trusted': [],
         'assumptions': ['uint32 bit operations of Go modelled with Z.land/Z.shiftl on non-negative Z'],
         'level_text': 'Coq theorems (Properties/C20.v): the decision equals the RFC 7967 class/bit rule for every code and every (unbounded) value; the response writer refuses exactly per the first No-Response option. Model tied to IsNoResponseCode and ResponseWriter.SetResponse by differential evaluation, exhaustive over 256 codes x values 0..63.',
-        'level_note': 'Trusted: Coq kernel + vm_compute, the harness. The wire clause (bare ACK / nothing on the wire) is covered by the datagram connection model of C05.',
+        'level_note': 'Trusted: Coq kernel + vm_compute, the harness. The wire clause (bare ACK / nothing on the wire) is proved on the datagram connection model (Dedup/Model.v, shared with C05) and checked on the same request histories (classes 11/12 of Dedup/Run.v).',
         'explanation': 'Theorems: IsNoResponseCode model equals the RFC 7967 class/bit decision for every code and every value (unbounded), only bits 1,3,4 matter, other classes always pass, the response writer refuses exactly per the first No-Response option. Correspondence: exhaustive bit tables for all 256 codes x values 0..63, boundary/random 32-bit values, 16-bit codes, ResponseWriter.SetResponse over generated request option lists.',
+    },
+    'C05': {
+        'run_vo': 'Dedup/Run.vo', 'props_vo': 'Properties/C05.vo', 'level': 'proof',
+        'classes': {1: 'handler-re-executed-for-duplicate', 2: 'duplicate-not-answered-with-first-reply', 3: 'not-fresh-after-lifetime'},
+        'trusted': ['hook udp/client/export_verif.go (response-cache deadline shifting, own message-ID view)',
+                    'in-memory udp/client.Session + barrier request used to wait for dispatch (harness/udpmem.go)'],
+        'assumptions': ['one handleReq execution is atomic per message ID (msgIDMutex); time is modelled as validity left per cache entry, shifted by the harness instead of waiting 247 s'],
+        'level_text': 'Coq theorems (Properties/C05.v) over ALL event histories of the request-path model of udp/client.Conn: a cacheable request seen again within the lifetime never reaches the handler and is answered with the stored reply retargeted to the duplicate; after the lifetime it is fresh. Model tied to the real Conn by event-by-event correspondence over an in-memory session.',
+        'level_note': 'Trusted: Coq kernel + vm_compute, harness, verif hook; atomicity of one per-MID critical section rests on sync.Mutex; real 247 s waits replaced by deadline shifting.',
+        'explanation': 'Histories of CON/NON requests, duplicates, virtual ageing and ticks on a real udp/client.Conn (in-memory session); observed handler calls and emitted datagrams compared with the model step by step; the property predicate is evaluated on the observed history.',
     },
 }
 
